@@ -344,6 +344,17 @@ pub fn run(tier: Tier, seed: u64) -> i32 {
             Ok(a) => {
                 if multiset_eq(&a.rows, wexp).is_err() {
                     let mut r = CaseResult::default();
+                    // second opinion: SQLite. If it sides with the model the oracle
+                    // stands and DataFusion's answer is set aside for this tree.
+                    if let Ok(srows) = crate::arbiter::run_sqlite(&[tab.clone(), one.clone()], wsql) {
+                        if multiset_eq(&srows, wexp).is_ok() {
+                            r.counts.push((format!("datafusion_disagrees_sqlite_sides_with_model: {}", p.sql().chars().take(80).collect::<String>()), 1));
+                            r.counts.push(("datafusion_disagreements_resolved_by_sqlite".into(), 1));
+                            out.push(r);
+                            // fall through to the engine checks below
+                            return engine_contexts(p, &vals, i, exhaustive_n, quick, &ctxs, out);
+                        }
+                    }
                     r.inconclusive = Some("model-vs-datafusion-disagree".into());
                     r.counts.push((format!("oracle_disagreement: {}", p.sql().chars().take(80).collect::<String>()), 1));
                     out.push(r);
@@ -356,6 +367,18 @@ pub fn run(tier: Tier, seed: u64) -> i32 {
                 out.push(r);
             }
         }
+        engine_contexts(p, &vals, i, exhaustive_n, quick, &ctxs, out)
+    });
+    let errs = rep.inconclusive_count("engine-error-permitted");
+    rep.floor(errs * 2 < rep.evaluations, "more than half of the statements were rejected by the engine");
+    rep.floor(rep.inconclusive_count("model-vs-datafusion-disagree") == 0, "the Kleene model disagrees with DataFusion on some tree and SQLite did not side with the model (oracle not validated)");
+    rep.assumptions.push("the harness Kleene evaluator is the oracle; DataFusion must agree with it on every tree, or SQLite must, or the run is inconclusive".into());
+    rep.finish()
+}
+
+fn engine_contexts(p: &P, vals: &[[Option<i64>; 3]], i: u64, exhaustive_n: usize, quick: bool, ctxs: &Ctxs, mut out: Vec<CaseResult>) -> Vec<CaseResult> {
+    let cx = contexts(p, vals);
+    {
         // In quick, exhaustive trees go through all contexts on memory and
         // WHERE/project on Parquet; random ones through a rotating subset.
         for (ci, (cname, sql, exp)) in cx.iter().enumerate() {
@@ -400,11 +423,6 @@ pub fn run(tier: Tier, seed: u64) -> i32 {
                 out.push(r);
             }
         }
-        out
-    });
-    let errs = rep.inconclusive_count("engine-error-permitted");
-    rep.floor(errs * 2 < rep.evaluations, "more than half of the statements were rejected by the engine");
-    rep.floor(rep.inconclusive_count("model-vs-datafusion-disagree") == 0, "the Kleene model and DataFusion disagree on some tree (oracle not validated)");
-    rep.assumptions.push("the harness Kleene evaluator is the oracle; DataFusion must agree with it on every tree or the run is inconclusive".into());
-    rep.finish()
+    }
+    out
 }
